@@ -2,6 +2,7 @@ package main
 
 import (
 	"fmt"
+	"regexp"
 	"sort"
 	"strconv"
 	"strings"
@@ -191,35 +192,76 @@ func optionIniNameOf(o *flags.Option) string {
 	return o.Field().Name
 }
 
-func uniqueSubcommandNames(real *Real) bool {
+// sectionNamesExpressible: every section name the writer will emit can be expressed by the format
+// (no '.', no ']', nothing to trim, not empty) - the rest is outside what the syntax can say
+func sectionNamesExpressible(real *Real) bool {
 	ok := true
-	var walk func(c *flags.Command)
-	walk = func(c *flags.Command) {
-		seen := map[string]bool{}
+	for _, c := range real.commandsPreorder() {
 		for _, s := range c.Commands() {
-			if seen[s.Name] || strings.Contains(s.Name, ".") || s.Name == "" {
+			if strings.Contains(s.Name, ".") || s.Name == "" {
 				ok = false
 			}
-			seen[s.Name] = true
-			walk(s)
 		}
-		// group descriptions addressable: distinct case-insensitively within the command, no '.'/']'
+		for _, g := range allGroups(c)[1:] {
+			d := strings.ToLower(g.ShortDescription)
+			if strings.ContainsAny(d, ".]") || d != strings.TrimSpace(d) {
+				ok = false
+			}
+		}
+	}
+	return ok
+}
+
+// sectionNamesClash: two sections of one command carry the same name (groups whose descriptions
+// are equal case-insensitively, two subcommands of one name, a group described like a subcommand)
+func sectionNamesClash(real *Real) bool {
+	clash := false
+	for _, c := range real.commandsPreorder() {
+		seen := map[string]bool{}
+		for _, s := range c.Commands() {
+			if seen[s.Name] {
+				clash = true
+			}
+			seen[s.Name] = true
+		}
 		gs := map[string]bool{}
 		for _, g := range allGroups(c)[1:] {
 			d := strings.ToLower(g.ShortDescription)
-			if gs[d] || strings.ContainsAny(d, ".]") || d != strings.TrimSpace(d) {
-				ok = false
+			if gs[d] {
+				clash = true
 			}
 			gs[d] = true
 		}
 		for _, s := range c.Commands() {
 			if gs[strings.ToLower(s.Name)] {
-				ok = false
+				clash = true
 			}
 		}
 	}
-	walk(real.p.Command)
-	return ok
+	return clash
+}
+
+// (C13 keeps to declarations whose sections are all addressable)
+func uniqueSubcommandNames(real *Real) bool {
+	return sectionNamesExpressible(real) && !sectionNamesClash(real)
+}
+
+var groupTagRe = regexp.MustCompile(`group:"[^"]*"`)
+
+// collideGroupName renames the first nested group of the declaration so that its section name
+// clashes with the top-level group's (differing in case only, or not at all)
+func collideGroupName(sd *StructDesc, to string) bool {
+	for i := range sd.Fields {
+		f := &sd.Fields[i]
+		if (f.Kind == "s" || f.Kind == "p") && strings.Contains(f.Tag, `group:"`) {
+			f.Tag = groupTagRe.ReplaceAllString(f.Tag, `group:"`+to+`"`)
+			return true
+		}
+		if f.Sub != nil && !strings.Contains(f.Tag, `command:"`) && collideGroupName(f.Sub, to) {
+			return true
+		}
+	}
+	return false
 }
 
 func checkC12(c *Ctx, n int) {
@@ -249,9 +291,17 @@ func checkC12(c *Ctx, n int) {
 				g.richify(cs.Build[bi].Struct)
 			}
 		}
+		if g.chance(0.04) && cs.Build[0].Struct != nil {
+			// two sections of one name (D17)
+			collideGroupName(cs.Build[0].Struct, []string{"application options", "Application Options", "APPLICATION OPTIONS"}[c.Rng.Intn(3)])
+		}
 		realA, _ := BuildReal(cs)
-		if realA.dead || !uniqueSubcommandNames(realA) {
+		if realA.dead || !sectionNamesExpressible(realA) {
 			continue
+		}
+		clash := sectionNamesClash(realA)
+		if clash {
+			c.Class("c12/two-sections-share-a-name")
 		}
 		// commands must not be required, or an argument-less parse fails for a reason outside C12
 		for _, cmd := range realA.commandsPreorder() {
@@ -330,6 +380,9 @@ func checkC12(c *Ctx, n int) {
 				// the written text of a value is checked against the choice texts when read
 				key = "C12:written-text-rejected-by-choices"
 			}
+			if clash {
+				key = "C12:two-sections-share-a-name"
+			}
 			in["case_file_write"] = c.saveCase(resA)
 			in["case_file_read"] = c.saveCase(resB)
 			c.Check("written-ini-is-readable", false, key, in, decodeLine(iniB), "INI ok")
@@ -384,6 +437,9 @@ func checkC12(c *Ctx, n int) {
 				// an explicitly empty slice/map whose default tag is non-empty cannot be expressed by the format
 				if (strings.HasPrefix(va, "L[") && va == "L[" || va == "M[") && len(refs[ref].Default) > 0 {
 					key = "C12:explicitly-empty-collection-with-nonempty-default"
+				}
+				if clash {
+					key = "C12:two-sections-share-a-name"
 				}
 				c.Check("round-trip-reproduces-value", false, key, in2, decodeLine(vb), decodeLine(va))
 			} else {
